@@ -5,7 +5,9 @@
 // runs when the binary is started with VERIF_HARNESS=worker (see
 // harness/cmd/vh_worker), never otherwise.  Real code exercised: handleMerge,
 // readMergedReports, handleChart (-> parseDateRange, group, charts, partition,
-// fileName), goMajorMinor, splitCounterName, config.Expand, storage.FSBucket.
+// fileName; goMajorMinor and splitCounterName only through the charts they shape), config.Expand, storage.FSBucket.
+// No unexported helper of the worker is referenced: only handleMerge, handleChart, handleCopy,
+// readMergedReports and the chart JSON types.
 package main
 
 import (
@@ -838,13 +840,34 @@ func cfgTokens(cfg *telemetry.UploadConfig) []string {
 	return t
 }
 
-func safeMajorMinor(v string) (res string, ok bool) {
-	defer func() {
-		if r := recover(); r != nil {
-			res, ok = "", false
+// specMajorMinor: what the GoVersion chart is specified to group by: go<N>.<M>
+// for a string that has, after its first two bytes, a decimal number without
+// leading zero, one separator byte and another such number; "" otherwise.
+// Written here (not the worker's helper) so that the rank table of the keys
+// does not depend on how the worker names its functions.
+func specMajorMinor(v string) (string, bool) {
+	cut := func(x string) (string, string, bool) {
+		i := 0
+		for i < len(x) && '0' <= x[i] && x[i] <= '9' {
+			i++
 		}
-	}()
-	return goMajorMinor(v), true
+		if i == 0 || x[0] == '0' && i != 1 {
+			return "", "", false
+		}
+		return x[:i], x[i:], true
+	}
+	if len(v) < 2 {
+		return "", true
+	}
+	maj, x, ok := cut(v[2:])
+	if !ok || x == "" {
+		return "", true
+	}
+	min, _, ok := cut(x[1:])
+	if !ok {
+		return "", true
+	}
+	return "go" + maj + "." + min, true
 }
 
 // specCompareSemver: the order the Version chart is specified to have:
@@ -1034,7 +1057,7 @@ func caseChart() {
 		semKeys = append(semKeys, p.Versions...)
 	}
 	for _, v := range cfg.GoVersion {
-		if k, ok := safeMajorMinor(v); ok {
+		if k, ok := specMajorMinor(v); ok {
 			goKeys = append(goKeys, k)
 		}
 	}
@@ -1128,16 +1151,63 @@ func caseChartBadRange() {
 	vout.Case(true, "badrange", I(dayNumber(start)), I(dayNumber(end)), st)
 }
 
+func oneReportChart(cfg *telemetry.UploadConfig, r *telemetry.Report) {
+	e := newEnv()
+	defer e.close()
+	start := genStart()
+	date := start.Format(telemetry.DateOnly)
+	data := append(mustJSON(r), '\n')
+	objs := e.store(date, []stored{{fmt.Sprintf("%s/%g.json", date, r.X), data, decodeFirst(data)}})
+	if st, _ := serve(handleMerge(e.api), "/merge/?date="+date); st != "ok" {
+		panic("merge of a well-formed day failed: " + st)
+	}
+	status, _ := serve(handleChart(tconfig.NewConfig(cfg), e.api), "/chart/?date="+date)
+	rc := reqCtx{kind: "live", after: -1}
+	fields := []string{"chart"}
+	fields = append(fields, rc.tokens()...)
+	fields = append(fields, cfgTokens(cfg)...)
+	var semKeys, goKeys []string
+	for _, p := range cfg.Programs {
+		semKeys = append(semKeys, p.Versions...)
+	}
+	for _, v := range cfg.GoVersion {
+		if k, ok := specMajorMinor(v); ok {
+			goKeys = append(goKeys, k)
+		}
+	}
+	fields = append(fields, rankTable(semKeys, specCompareSemver)...)
+	fields = append(fields, rankTable(goKeys, version.Compare)...)
+	fields = append(fields, I(dayNumber(start)), I(dayNumber(start)), I(1), B(true), I(int64(len(objs))))
+	for _, o := range objs {
+		fields = append(fields, projTokens(o.rep)...)
+	}
+	fields = append(fields, status)
+	if status == "ok" {
+		ents, _ := os.ReadDir(filepath.Join(e.dir, "chart"))
+		var cd chartdata
+		if len(ents) != 1 {
+			fields = append(fields, "unparsable")
+		} else if b, _ := os.ReadFile(filepath.Join(e.dir, "chart", ents[0].Name())); json.Unmarshal(b, &cd) != nil {
+			fields = append(fields, "unparsable")
+		} else {
+			fields = append(fields, "chartdata", HS(ents[0].Name()))
+			fields = append(fields, chartTokens(&cd)...)
+		}
+	} else {
+		fields = append(fields, "nochart")
+	}
+	fields = append(fields, B(true))
+	vout.Case(true, fields...)
+}
+
 func genVersionString() string {
 	switch vrnd.Intn(6) {
 	case 0:
 		return Pick(vrnd, goverBad)
 	case 1, 2:
 		return Pick(vrnd, goverPool)
-	case 3:
-		return string(vrnd.Bytes(vrnd.Intn(6)))
 	default:
-		alphabet := "go0123456789.xrc-"
+		alphabet := "go0123456789.xrc- "
 		n := vrnd.Intn(9)
 		b := make([]byte, n)
 		for i := range b {
@@ -1147,26 +1217,32 @@ func genVersionString() string {
 	}
 }
 
+// gmm: the normalisation of Go versions observed where it shows: the key of the
+// GoVersion chart of a one-report day whose report and configuration carry the
+// generated version string (plus a second configured version that may
+// normalise to the same key).
 func caseGMM() {
 	v := genVersionString()
-	res, ok := safeMajorMinor(v)
-	if ok {
-		vout.Note("gmm-returns")
-	} else {
-		vout.Note("gmm-panics")
+	cfg := &telemetry.UploadConfig{GOOS: []string{"linux"}, GOARCH: []string{"amd64"}, GoVersion: []string{v},
+		Programs: []*telemetry.ProgramConfig{{Name: Pick(vrnd, []string{"x", "cmd/go"})}}}
+	if vrnd.Bool() {
+		cfg.GoVersion = append(cfg.GoVersion, genVersionString())
 	}
-	vout.Case(true, "gmm", HS(v), B(ok), HS(res))
+	r := &telemetry.Report{Week: "2024-01-07", LastWeek: "2023-12-31", X: genX(nil), Config: "v0.0.1-test",
+		Programs: []*telemetry.ProgramReport{{Program: cfg.Programs[0].Name, Version: "v1.0.0", GoVersion: v, GOOS: "linux", GOARCH: "amd64"}}}
+	vout.Note("gmm-through-the-GoVersion-chart")
+	oneReportChart(cfg, r)
 }
 
+// split: counter-name splitting observed where it shows: a configured counter s,
+// a report carrying every expansion of s: the chart's name and the keys of its data.
 func caseSplit() {
 	var s string
 	switch vrnd.Intn(4) {
 	case 0:
 		s = Pick(vrnd, counterCfgPool)
-	case 1:
-		s = string(vrnd.Bytes(vrnd.Intn(5)))
 	default:
-		alphabet := "ab:{},}"
+		alphabet := "ab:{},}/ "
 		n := vrnd.Intn(10)
 		b := make([]byte, n)
 		for i := range b {
@@ -1174,11 +1250,27 @@ func caseSplit() {
 		}
 		s = string(b)
 	}
-	g, b := splitCounterName(s)
-	fields := []string{"split", HS(s), HS(string(g)), HS(string(b))}
+	// Expand and IsToolchainProgram are exported functions of other packages: observed directly
+	fields := []string{"expand", HS(s)}
 	fields = append(fields, strList(tconfig.Expand(s))...)
 	fields = append(fields, B(telemetry.IsToolchainProgram(s)))
 	vout.Case(true, fields...)
+	prog := Pick(vrnd, []string{"x", "cmd/go"})
+	cfg := &telemetry.UploadConfig{GOOS: []string{"linux"}, GOARCH: []string{"amd64"}, GoVersion: []string{"go1.21"},
+		Programs: []*telemetry.ProgramConfig{{Name: prog, Counters: []telemetry.CounterConfig{{Name: s, Rate: 1}}}}}
+	counters := map[string]int64{}
+	for _, c := range tconfig.Expand(s) {
+		if vrnd.Chance(80) {
+			counters[c] = 1 + vrnd.Int63n(9)
+		}
+	}
+	if vrnd.Chance(30) {
+		counters[s] = 1 // the collapsed name itself, as a stray counter
+	}
+	r := &telemetry.Report{Week: "2024-01-07", LastWeek: "2023-12-31", X: genX(nil), Config: "v0.0.1-test",
+		Programs: []*telemetry.ProgramReport{{Program: prog, Version: "v1.0.0", GoVersion: "go1.21", GOOS: "linux", GOARCH: "amd64", Counters: counters}}}
+	vout.Note("split-through-a-counter-chart")
+	oneReportChart(cfg, r)
 }
 
 // seq: a SEQUENCE of operations on one set of buckets: reports stored, the day
@@ -1454,7 +1546,7 @@ func caseSeq() {
 		semKeys = append(semKeys, p.Versions...)
 	}
 	for _, v := range cfg.GoVersion {
-		if k, ok := safeMajorMinor(v); ok {
+		if k, ok := specMajorMinor(v); ok {
 			goKeys = append(goKeys, k)
 		}
 	}
